@@ -31,7 +31,11 @@ Ops(c) == FieldOps \cup PairOps \cup NameOps \cup ForeignOps \cup (IF Split(c) T
           \cup (IF c \in {"cookie1", "cookie2", "cookie3"} THEN CraftedOps ELSE {})
 
 VARIABLE c
-Init == \E cr \in Creds, sf \in SecretForms : \E op \in Ops(cr) : c = [cred |-> cr, op |-> op, secret |-> sf, stride |-> Stride]
+\* expire = "zero": cookie-expire 0 (browser-session cookies, no age limit): everything else about a credential is as binding as ever
+FirstForm == CHOOSE sf \in SecretForms : TRUE
+Init == \E cr \in Creds, sf \in SecretForms, ex \in {"default", "zero"} : \E op \in Ops(cr) :
+          /\ c = [cred |-> cr, op |-> op, secret |-> sf, stride |-> Stride, expire |-> ex]
+          /\ (ex = "zero" => sf = FirstForm /\ cr \in {"cookie1", "cookie2", "ticket", "csrf"})
 Next == UNCHANGED c
 
 \* whatever the instance: rejected, or exactly the issued credential; nothing recoverable in clear
